@@ -106,12 +106,14 @@ func (db *DB) mpoolDrain() {
 			}
 		case <-db.closeC:
 			ticker.Stop()
-			// Make sure the pool is drained.
+			// Make sure the pool is drained. The channel stays open: a
+			// mpoolPut that has passed its closed check just before Close
+			// (a flush that completes, an iterator being released) would
+			// panic on a closed channel, and nothing reads a closed one.
 			select {
 			case <-db.memPool:
 			case <-time.After(time.Second):
 			}
-			close(db.memPool)
 			return
 		}
 	}
